@@ -291,6 +291,7 @@ class Explorer:
                 events = events | {watch[node.id]}
             if node.id in probes:
                 name, fn = probes[node.id]
+                self.events_now = events
                 try:
                     val = fn(self, env)
                 except Exception:
